@@ -296,6 +296,15 @@ def make_body(sc, e, raised_objs):
                         ev('deliver2', delivered2[-1])
                     except StopIteration:
                         ev('exhausted2')
+                if sc.get('nested') and len(delivered) == 2:
+                    # with this iterator suspended, the same dataset object is
+                    # iterated completely, `nested` times (a validation pass,
+                    # counting the examples ...), then the iterator goes on
+                    ev('nested_start')
+                    for _p in range(sc['nested']):
+                        for v2 in (ds.items() if sc.get('key') else ds):
+                            ev('deliver2', v2)
+                    ev('nested_end')
                 if wait:
                     import time
                     time.sleep(wait)      # real-thread harness: a slow consumer
@@ -539,10 +548,31 @@ def judge_errors(sc, r, res, ld):
 
 
 def readahead(sc, r):
-    """Maximum of pulled - delivered and started - delivered over the log."""
+    """Maximum of pulled - delivered and started - delivered over the log.
+    With nested complete passes over the same object ('nested'), the maximum
+    over the part of the log after the last of them: everything those passes
+    pulled has been delivered by then, so what is outstanding belongs to the
+    suspended iterator alone."""
     pulled = started = delivered = 0
     mp = ms = 0
+    after = not sc.get('nested')
     for e in r['events']:
+        if e[1] == 'nested_end':
+            after = True
+            mp = max(mp, pulled - delivered)
+            ms = max(ms, started - delivered)
+            continue
+        if e[1] == 'deliver2':
+            delivered += 1
+            continue
+        if not after:
+            if e[1] == 'pull':
+                pulled += 1
+            elif e[1] == 'start':
+                started += 1
+            elif e[1] == 'deliver':
+                delivered += 1
+            continue
         if e[1] == 'pull':
             pulled += 1
             mp = max(mp, pulled - delivered)
